@@ -40,6 +40,10 @@ type GoBackNConn struct {
 	// dropping its head.
 	recvPartial []byte
 
+	// recvMu serializes concurrent Recv calls: each of them assembles one
+	// whole message in recvPartial.
+	recvMu sync.Mutex
+
 	resendTicker *time.Ticker
 
 	recvDataChan chan *PacketData
@@ -221,6 +225,9 @@ func (g *GoBackNConn) Recv() ([]byte, error) {
 		return nil, io.EOF
 	default:
 	}
+
+	g.recvMu.Lock()
+	defer g.recvMu.Unlock()
 
 	var msg *PacketData
 
